@@ -251,6 +251,18 @@ def c11_shared(rs: int, rs2: int, fs: int, stacked: bool, piped: bool, draw: int
     return fin(ok)
 
 
+def c11_strict_undefined_detection_error() -> bool:
+    """Witness form for known finding c11-error-text-with-internal-prefix: the error for a filter condition that
+    refers to an undefined detection must not contain the internal (randomly drawn) identifier prefix."""
+    ls = {"category": "a"}
+    docs = [rule_doc(["sel"], "sel", ls), {"title": "f", "logsource": ls, "filter": {"rules": "any", "f1": {"q": "v"}, "condition": "not nosuch"}}]
+    try:
+        convert_docs(docs, DRAWS[0])
+    except SigmaError as e:
+        return "_filt_" not in str(e)
+    return True
+
+
 def c11_shared_concrete(rs: int, rs2: int, fs: int, stacked: bool, piped: bool, draw: int) -> bool:
     return check_shared(rs, rs2, fs, stacked, piped, draw)
 
